@@ -521,6 +521,11 @@ class C04(Oracle):
         judged_exact = False
         if not in_domain:
             vals = None     # outside the core domain only stickiness and propagation are judged
+        if sto.arith is not None and st.extra.get('arith_route') == 'np' and st.dest is not None:
+            # NumPy route into config.array_op_out is two-stage: the library first builds the
+            # ordinary result object (which carries the flags of the exact result) and then stores
+            # THAT into the register, so the register's own write has the intermediate as input
+            vals = None
         for i in sto.prop:
             if i in st.pre and st.pre[i]['fmt'][1] > 52:
                 vals = None
@@ -546,10 +551,18 @@ class C04(Oracle):
             rounded = [Q.rnd(Q.scale(v, nf), cfg['rounding']) for v in vals[1]]
             ovf_now = any(r > hi for r in rounded)
             udf_now = any(r < lo for r in rounded)
-            if all(type(c) is int for c in gl):
+            if all(type(c) is int for c in gl) and gl:
                 inacc_now = any(Q.unscale(c, nf) != v for c, v in zip(gl, il))
             else:
+                judged_exact = False    # nothing stored (empty region) or non-integer storage
+        if judged_exact and sto.arith is not None:
+            # the flags of an arithmetic result are judged against the exact result only when the
+            # library stored exactly its quantization; a wrong VALUE is C07/C08's subject, not C04's
+            # (seen: repr-method subtraction of unsigned operands wrapping in uint64; get_val() of an
+            # object with a stale integer value type flooring its operands)
+            if any(c != Q.quant(v, fmt, cfg['rounding'], cfg['overflow'])[0] for c, v in zip(gl, il)):
                 judged_exact = False
+                w.bump('c04_arith_value_not_exact_not_judged')
         if judged_exact:
             w.bump('c04_write_judged')
             if ovf_now and udf_now:
